@@ -230,6 +230,12 @@ impl BlockIter {
     }
 
     pub fn seek_to_last(&mut self) {
+        // A block without entries has no last entry.
+        if self.restarts_off == 0 {
+            self.reset();
+            return;
+        }
+
         if self.number_restarts() > 0 {
             let num_restarts = self.number_restarts();
             self.seek_to_restart_point(num_restarts - 1);
